@@ -739,6 +739,7 @@ def _legacy(run, repo, world, folder):
            where(mod, fn), sample={"rule": "R-WIRE-LEGACY",
                                    "driver": "tridonic (legacy)"})
     _legacy_tridonic_extract(run, repo, world, folder, tc, tsp)
+    _legacy_tridonic_receive(run, repo, world)
     # legacy hasseb
     mod = repo.mod(LHAS)
     c = [k for k in world.classes_in(LHAS) if "construct" in k.methods]
@@ -1471,3 +1472,71 @@ def _steps_inline(fn, attr):
     # the value used in the packet is the updated counter
     return [{"guard": g[0], "ret": c, "next": c},
             {"guard": g[1], "ret": inc, "next": inc}]
+
+
+def _legacy_tridonic_receive(run, repo, world):
+    """What the asynchronous legacy Tridonic driver does with a decoded
+    report: 'no answer' (a pending query completed with None) only for the
+    report extract() reads as DALI_USB_NO_RESPONSE, a backward frame handed
+    on as the answer, a forward frame dispatched - on the paths of
+    receive()."""
+    from .. import paths
+    from ..normal import normalise
+    mod = repo.mod(LTRI)
+    c = world.cls(LTRI + ".AsyncTridonicDALIUSBDriver")
+    if c is None or "receive" not in c.methods:
+        raise AnalysisError("legacy Tridonic receive vanished")
+    fn = normalise(c.methods["receive"][1], world, LTRI, c,
+                   primitives=("extract", "_handle_response",
+                               "_handle_dispatch"), aliases=True)
+    Q = c.qname + ".receive"
+    try:
+        ps = paths.summaries(fn)
+    except paths.Unsupported as e:
+        raise AnalysisError("%s: %s" % (Q, e))
+    n = 0
+    for p_ in ps:
+        calls = [e for e in p_.calls] if hasattr(p_, "calls") else []
+        for (what, call) in _path_calls(p_):
+            if what != "self._handle_response" or len(call.args) != 2:
+                continue
+            n += 1
+            ans = call.args[1]
+            conds = {(unparse(t), b) for (t, b) in p_.conds}
+            fr = "self.extract(%s)" % fn.args.args[1].arg
+            names = {fr} | {unparse(t_.targets[0]) for t_ in ast.walk(fn)
+                            if isinstance(t_, ast.Assign) and unparse(
+                                t_.value) == fr}
+            if isinstance(ans, ast.Constant) and ans.value is None:
+                ok = any(("%s is DALI_USB_NO_RESPONSE" % x, True) in conds or
+                         ("%s == DALI_USB_NO_RESPONSE" % x, True) in conds or
+                         ("%s is not DALI_USB_NO_RESPONSE" % x, False)
+                         in conds for x in names)
+                run.ob("R-WIRE-LEGACY", Q + "#no-answer-only-for-NO_RESPONSE",
+                       ok, "receive() completes the pending query with 'no "
+                       "answer' on a path that has not established that the "
+                       "report is the NO_RESPONSE one (%s): any other report "
+                       "- the interface's own 'transfer complete' - then "
+                       "answers the query and the real answer is dropped"
+                       % sorted(c_[0] for c_ in conds)[:4], where(mod, call))
+            else:
+                ok = any(("isinstance(%s, BackwardFrame)" % x, True) in conds
+                         for x in names) and unparse(ans) in names
+                run.ob("R-WIRE-LEGACY", Q + "#answer-is-the-backward-frame",
+                       ok, "receive() hands `%s` on as the answer without "
+                       "having established that it is a backward frame"
+                       % unparse(ans), where(mod, call))
+    run.floor("legacy Tridonic receive(): completions of a pending query", n,
+              2)
+
+
+def _path_calls(p_):
+    """(callee text, Call) of the call statements on a path summary"""
+    out = []
+    for e in getattr(p_, "effects", []):
+        if len(e) >= 2 and e[0] == "call" and isinstance(e[1], ast.Call):
+            out.append((unparse(e[1].func), e[1]))
+        elif len(e) == 2 and isinstance(e[1], ast.Call) and e[0] in (
+                "expr", "<call>"):
+            out.append((unparse(e[1].func), e[1]))
+    return out
